@@ -189,3 +189,45 @@ def compile_search(pat, mode="search", unicode_digits=True):
     else:
         parts.append(full)
     return parts[0] if len(parts) == 1 else z3.Concat(*parts)
+
+
+def min_length(pat):
+    """a lower bound on the length of any string the pattern matches (anchors ignored; conservative)"""
+    n = 0
+    i = 0
+    depth = 0
+    while i < len(pat):
+        c = pat[i]
+        nxt = pat[i + 1] if i + 1 < len(pat) else ""
+        if c in "^$":
+            i += 1
+            continue
+        if c == "(":
+            depth += 1
+            i += 1
+            continue
+        if c == ")":
+            depth -= 1
+            i += 1
+            if nxt and nxt in "*?":
+                return 0 if n == 0 else n      # optional group: keep it simple, do not count further
+            continue
+        if c == "|":
+            return 0
+        atom_len = 1
+        if c == "\\":
+            i += 2
+        elif c == "[":
+            j = pat.index("]", i + 1)
+            i = j + 1
+        else:
+            i += 1
+        q = pat[i] if i < len(pat) else ""
+        if q in ("*", "?"):
+            atom_len = 0
+            i += 1
+        elif q == "+":
+            i += 1
+        if depth == 0 or True:
+            n += atom_len
+    return n
